@@ -356,25 +356,67 @@ func errKind(err error) string {
 	return "other:" + t
 }
 
-// runScript runs a one-statement script over shared globals and returns the global `out`.
+// runScript runs a one-statement script over shared globals (the real compiler and VM) and returns the
+// global `out`. Compiled code is cached per statement text; the VM is reused until a run fails (a VM that
+// returned an error keeps it).
+type cachedScript struct {
+	c       *lib.Compiled
+	globals []tengo.Object
+	idx     map[string]int
+	out     int
+	vm      *tengo.VM
+}
+
+var scriptCache = map[string]*cachedScript{}
+
 func runScript(src string, vars map[string]tengo.Object) (tengo.Object, error) {
-	s := tengo.NewScript([]byte(src))
-	for k, v := range vars {
-		if err := s.Add(k, v); err != nil {
-			return nil, err
+	names := make([]string, 0, len(vars))
+	for k := range vars {
+		names = append(names, k)
+	}
+	sort.Strings(names)
+	key := src + "|" + strings.Join(names, ",")
+	cs := scriptCache[key]
+	if cs == nil {
+		c, err := lib.CompileSource([]byte(src), lib.CompileOpts{Inputs: names})
+		if err != nil {
+			return nil, fmt.Errorf("compile: %v", err)
 		}
+		cs = &cachedScript{c: c, globals: make([]tengo.Object, tengo.GlobalsSize), idx: map[string]int{}, out: -1}
+		for _, n := range append(append([]string{}, names...), "out") {
+			if sym, _, ok := c.Symbols.Resolve(n, false); ok && sym.Scope == tengo.ScopeGlobal {
+				if n == "out" {
+					cs.out = sym.Index
+				} else {
+					cs.idx[n] = sym.Index
+				}
+			}
+		}
+		scriptCache[key] = cs
 	}
-	c, err := s.Compile()
+	for n, i := range cs.idx {
+		cs.globals[i] = vars[n]
+	}
+	if cs.out >= 0 {
+		cs.globals[cs.out] = nil
+	}
+	if cs.vm == nil {
+		cs.vm = tengo.NewVM(cs.c.BC, cs.globals, -1)
+	}
+	err := cs.vm.Run()
+	var out tengo.Object
+	if cs.out >= 0 {
+		out = cs.globals[cs.out]
+		cs.globals[cs.out] = nil
+	}
+	for _, i := range cs.idx {
+		cs.globals[i] = nil
+	}
 	if err != nil {
-		return nil, fmt.Errorf("compile: %v", err)
-	}
-	if err := c.Run(); err != nil {
+		cs.vm = nil
 		return nil, err
 	}
-	if v := c.Get("out"); v != nil {
-		return v.Object(), nil
-	}
-	return nil, nil
+	return out, nil
 }
 
 var builtins = func() map[string]tengo.CallableFunc {
@@ -522,9 +564,22 @@ func (m *machine) exec1(op opRec) bool {
 		m.emit(lib.L("err", lib.N(A[0])), pushedAns(o))
 	case "immut":
 		x := m.regs[A[0]]
-		r, err := runScript("out := immutable(a)", map[string]tengo.Object{"a": x})
-		if err != nil || r == nil {
-			return false
+		var r tengo.Object
+		if op.Name == "direct" { // what OpImmutable does, without compiling a script (exhaustive universe)
+			switch v := x.(type) {
+			case *tengo.Array:
+				r = &tengo.ImmutableArray{Value: v.Value}
+			case *tengo.Map:
+				r = &tengo.ImmutableMap{Value: v.Value}
+			default:
+				r = x
+			}
+		} else {
+			var err error
+			r, err = runScript("out := immutable(a)", map[string]tengo.Object{"a": x})
+			if err != nil || r == nil {
+				return false
+			}
 		}
 		consume := op.Flag
 		switch x.(type) {
@@ -809,7 +864,7 @@ func (m *machine) doImport(op opRec) bool {
 			sig, what = "builtin-module-table-mutable", "a builtin-module table is immutable"
 		}
 		res.Dist("violation:" + m.stream + ":" + sig)
-		res.Violate(lib.Violation{Signature: sig, Stream: m.stream, Input: map[string]interface{}{"ops": append(append([]opRec{}, m.log...)), "module": op.Name},
+		res.Violate(lib.Violation{Signature: sig, Stream: m.stream, Input: map[string]interface{}{"ops": append([]opRec{}, m.log...), "module": op.Name},
 			Observed: lib.Canon(v), Expected: "immutable-array / immutable-map", Oracle: what})
 	}
 	m.importObj(v, map[tengo.Object]int{})
